@@ -32,7 +32,7 @@ structure St where
   ori : Option Rat      -- stored `orientation` attribute, if the state class has one and it is set
   vel : Option Rat      -- `velocity`
   velY : Option Rat     -- `velocity_y`
-  deriving Repr
+  deriving Repr, DecidableEq
 
 def GState.hasPos (g : GState) : Bool := g.pos.isSome
 def St.hasPos (s : St) : Bool := s.pos.isSome
